@@ -447,8 +447,14 @@ fire("c18-binary-operands-swapped", "C18", COMPILER,
      "            arg_ids = (ids[f.lhs], ids[f.rhs])", "            arg_ids = (ids[f.rhs], ids[f.lhs])", "R18.3", "compile_funsor")
 fire("c18-lower-binary-swapped", "C18", COMPILER,
      "    return Binary(x.op, lhs, rhs)", "    return Binary(x.op, rhs, lhs)", "R18.3", "_lower_binary")
-fire("c18-lower-contraction-folds-reversed", "C18", COMPILER,
-     "    terms = [_lower(term) for term in x.terms]", "    terms = [_lower(term) for term in reversed(x.terms)]", "R18.3", "_lower_contraction")
+silent("c18-s-lower-contraction-folds-reversed", "C18", COMPILER,  # every associative op is commutative: same value
+       "    terms = [_lower(term) for term in x.terms]", "    terms = [_lower(term) for term in reversed(x.terms)]")
+fire("c18-lower-contraction-drops-first-term", "C18", COMPILER,
+     "    terms = [_lower(term) for term in x.terms]", "    terms = [_lower(term) for term in x.terms[1:]]", "R18.3", "_lower_contraction")
+fire("c18-lower-contraction-filters-numbers", "C18", COMPILER,
+     "    terms = [_lower(term) for term in x.terms]", "    terms = [_lower(term) for term in x.terms if not isinstance(term, Number)]", "R18.3", "_lower_contraction")
+fire("c18-lower-contraction-wrong-op", "C18", COMPILER,
+     "    bin_op = functools.partial(Binary, x.bin_op)", "    bin_op = functools.partial(Binary, x.red_op)", "R18.3", "_lower_contraction")
 fire("c18-result-is-first-slot", "C18", PROGRAM,
      "        result = env[-1]\n        return result", "        result = env[0]\n        return result", "R18.4", "__call__")
 fire("c18-lower-contraction-ignores-reduction", "C18", COMPILER,
